@@ -12,7 +12,27 @@ def _outcome_obj(code):
 
 
 # ---------------------------------------------------------------- case construction
-# node = {"id", "k": "s"|"d"|"l", "c": bool, "opt", "empty", "down", "up", "kids"}
+# node = {"id", "k": kind, "opt", "empty", "down", "up", "kids"}   ("c" of older cases is ignored: the
+# container / non-container split of the model is computed from the real class at run time, see `_flags`)
+#
+# kinds: "s" String, "i" Integer, "b" Boolean (scalar leaves; "zero": a non-empty leaf holds the FALSY value 0 /
+# False instead of 7 / True — an element that is falsy but not empty); "d" Dict (kids = fields f0..), "sd" SparseDict (kids = the
+# PRESENT fields f0.., "absent" more fields in the schema that have no element), "l" List, "a" Array,
+# "m" MultiValue (scalar members), "j" JoinedString (String members), "c" DateYYYYMMDD (Compound: year, month,
+# day Integer children).  Sequence members share one member schema (the first kid's shape).
+#
+# "down" / "up": the outcomes of the validators the element runs on the way down / up.  They are installed under
+# the attribute the class names in `validates_down` / `validates_up` (read from the class when the case runs).
+
+LEAF_KINDS = ("s", "i", "b")
+SEQ_KINDS = ("l", "a", "m", "j")
+# the documented split (docs/source/validation: every Container — mappings, sequences, Compound, MultiValue and
+# JoinedString included — has descent_validators for the way down and validators for the way up; scalars run
+# validators on the way down).  Used by the ORACLE only.
+DOC_CONTAINER = {"s": False, "i": False, "b": False, "d": True, "sd": True, "l": True, "a": True, "m": True, "j": True, "c": True}
+KIND_CLASS = {"s": "String", "i": "Integer", "b": "Boolean", "d": "Dict", "sd": "SparseDict", "l": "List", "a": "Array",
+              "m": "MultiValue", "j": "JoinedString", "c": "DateYYYYMMDD"}
+
 
 def _number(tree):
     counter = itertools.count()
@@ -25,6 +45,26 @@ def _number(tree):
     return tree
 
 
+def _doc_empty(node):
+    """is_empty as documented per kind: scalars — no value and no text; Dict — never; SparseDict and sequences
+    — no member; Compound — every field empty"""
+    k = node["k"]
+    if k in LEAF_KINDS:
+        return bool(node["empty"])
+    if k == "d":
+        return False
+    if k == "c":
+        return all(_doc_empty(x) for x in node["kids"])
+    return not node["kids"]
+
+
+def _fix_empty(tree):
+    for k in tree["kids"]:
+        _fix_empty(k)
+    tree["empty"] = _doc_empty(tree)
+    return tree
+
+
 def _rand_outcomes(rng, maxlen=3):
     n = rng.choice([0, 0, 1, 1, 1, 2, 2, 3][: maxlen + 5])
     n = min(n, maxlen)
@@ -33,96 +73,194 @@ def _rand_outcomes(rng, maxlen=3):
 
 
 def _rand_shape(rng, depth, budget):
-    """shape: ("s",) | ("d", [shapes]) | ("l", shape, count)"""
-    if depth <= 0 or budget[0] <= 1 or rng.random() < 0.35:
+    """shape: (leaf,) | ("d", [shapes]) | ("sd", [shapes], absent) | ("l", shape, count) | ("a"|"m", leaf, count)
+    | ("j", count) | ("c",)"""
+    if depth <= 0 or budget[0] <= 1 or rng.random() < 0.3:
         budget[0] -= 1
-        return ("s",)
+        return (rng.choice(["s", "s", "i", "i", "b"]),)
     budget[0] -= 1
-    if rng.random() < 0.5:
+    r = rng.random()
+    if r < 0.22:
         n = rng.randint(1, 3)
         return ("d", [_rand_shape(rng, depth - 1, budget) for _ in range(n)])
-    return ("l", _rand_shape(rng, depth - 1, budget), rng.randint(0, 3))
+    if r < 0.36:
+        n = rng.randint(0, 2)
+        return ("sd", [_rand_shape(rng, depth - 1, budget) for _ in range(n)], rng.randint(0 if n else 1, 2))
+    if r < 0.52:
+        return ("l", _rand_shape(rng, depth - 1, budget), rng.randint(0, 3))
+    if r < 0.64:
+        n = rng.randint(0, 3)
+        budget[0] -= n
+        return ("a", rng.choice(LEAF_KINDS), n)
+    if r < 0.76:
+        n = rng.randint(0, 3)
+        budget[0] -= n
+        return ("m", rng.choice(LEAF_KINDS), n)
+    if r < 0.88:
+        n = rng.randint(0, 3)
+        budget[0] -= n
+        return ("j", n)
+    budget[0] -= 3
+    return ("c",)
+
+
+def _leaf(rng, kind, maxlen, falsy=False):
+    n = {"k": kind, "opt": rng.random() < 0.4, "empty": rng.random() < 0.4,
+         "down": _rand_outcomes(rng, maxlen), "up": [], "kids": []}
+    if kind != "s" and (falsy or rng.random() < 0.3):
+        n["zero"] = True
+    if falsy and kind == "s":
+        n["empty"] = True
+    return n
+
+
+def _leaf_value(node):
+    if node["empty"]:
+        return None
+    if node["k"] == "s":
+        return "x"
+    if node["k"] == "i":
+        return 0 if node.get("zero") else 7
+    return False if node.get("zero") else True
 
 
 def _instantiate(rng, shape, maxlen=3):
-    if shape[0] == "s":
-        return {"k": "s", "c": False, "opt": rng.random() < 0.4, "empty": rng.random() < 0.4,
-                "down": _rand_outcomes(rng, maxlen), "up": [], "kids": []}
-    if shape[0] == "d":
-        return {"k": "d", "c": True, "opt": rng.random() < 0.4, "empty": False,
-                "down": _rand_outcomes(rng, maxlen), "up": _rand_outcomes(rng, maxlen),
-                "kids": [_instantiate(rng, s, maxlen) for s in shape[1]]}
-    kids = [_instantiate(rng, shape[1], maxlen) for _ in range(shape[2])]
-    return {"k": "l", "c": True, "opt": rng.random() < 0.4, "empty": not kids,
-            "down": _rand_outcomes(rng, maxlen), "up": _rand_outcomes(rng, maxlen), "kids": kids}
+    k = shape[0]
+    if k in LEAF_KINDS:
+        return _leaf(rng, k, maxlen)
+    node = {"k": k, "opt": rng.random() < 0.4, "empty": False,
+            "down": _rand_outcomes(rng, maxlen), "up": _rand_outcomes(rng, maxlen)}
+    if k == "d":
+        node["kids"] = [_instantiate(rng, s, maxlen) for s in shape[1]]
+    elif k == "sd":
+        node["kids"] = [_instantiate(rng, s, maxlen) for s in shape[1]]
+        node["absent"] = shape[2]
+    elif k == "l":
+        falsy = shape[1][0] in LEAF_KINDS and rng.random() < 0.35
+        node["kids"] = [_leaf(rng, shape[1][0], maxlen, True) if falsy else _instantiate(rng, shape[1], maxlen)
+                        for _ in range(shape[2])]
+    elif k in ("a", "m"):
+        falsy = rng.random() < 0.35          # every member falsy as an element (0, False, no value)
+        node["kids"] = [_leaf(rng, shape[1], maxlen, falsy) for _ in range(shape[2])]
+        node["member"] = shape[1]
+    elif k == "j":
+        falsy = rng.random() < 0.35
+        node["kids"] = [_leaf(rng, "s", maxlen, falsy) for _ in range(shape[1])]
+    else:
+        node["kids"] = [_leaf(rng, "i", maxlen) for _ in range(3)]
+    return node
 
 
 # ---------------------------------------------------------------- real implementation
 
 def _schema_for(node, name=None):
     import flatland
-    if node["k"] == "s":
+    k = node["k"]
+    kids = node["kids"]
+    if k == "s":
         cls = flatland.String
-    elif node["k"] == "d":
-        cls = flatland.Dict.of(*[_schema_for(k, "f%d" % i) for i, k in enumerate(node["kids"])])
-    else:
-        member = node["kids"][0] if node["kids"] else {"k": "s", "kids": []}
+    elif k == "i":
+        cls = flatland.Integer
+    elif k == "b":
+        cls = flatland.Boolean
+    elif k == "d":
+        cls = flatland.Dict.of(*[_schema_for(x, "f%d" % i) for i, x in enumerate(kids)])
+    elif k == "sd":
+        fields = [_schema_for(x, "f%d" % i) for i, x in enumerate(kids)]
+        fields += [flatland.String.named("f%d" % (len(kids) + i)) for i in range(node.get("absent", 0))]
+        cls = flatland.SparseDict.of(*fields)
+    elif k == "l":
+        member = kids[0] if kids else {"k": "s", "kids": []}
         cls = flatland.List.of(_schema_for(member, None))
+    elif k in ("a", "m"):
+        member = {"k": kids[0]["k"] if kids else node.get("member", "s"), "kids": []}
+        cls = (flatland.Array if k == "a" else flatland.MultiValue).of(_schema_for(member, "m"))
+    elif k == "j":
+        cls = flatland.JoinedString
+    else:
+        cls = flatland.DateYYYYMMDD
     return cls.named(name)
 
 
 def _blank(node):
-    if node["k"] == "s":
-        return None if node["empty"] else "x"
-    if node["k"] == "d":
-        return {"f%d" % i: _blank(k) for i, k in enumerate(node["kids"])}
-    return [_blank(k) for k in node["kids"]]
+    k = node["k"]
+    if k in LEAF_KINDS:
+        return _leaf_value(node)
+    if k in ("d", "sd"):
+        return {"f%d" % i: _blank(x) for i, x in enumerate(node["kids"])}
+    if k == "j":
+        return ["x" for _ in node["kids"]]       # members are emptied one by one afterwards (`_dress`)
+    if k == "c":
+        return None                              # the three fields exist from the start; set one by one
+    return [_blank(x) for x in node["kids"]]
 
 
-def _children(el, node):
-    if node["k"] == "d":
-        return [el["f%d" % i] for i in range(len(node["kids"]))]
-    if node["k"] == "l":
-        return list(el)
-    return []
+def _flags(el):
+    """(validates_down, validates_up) as the element's class has them NOW"""
+    return getattr(el, "validates_down", None), getattr(el, "validates_up", None)
 
 
-def _build(tree):
-    """Return (root element, {id: element}, call log list)."""
-    schema = _schema_for(tree, "root")
-    root = schema()
-    root.set(_blank(tree))
-    log = []
-    byid = {}
-    _dress(root, tree, byid, log)
-    return root, byid, log
+class _ChildrenMismatch(Exception):
+    pass
 
 
-def _dress(root, tree, byid, log):
-    """(Re)assign optional flags, validator lists and scalar emptiness of every element."""
-    def mk(nid, descending, idx, code):
-        outcome = _outcome_obj(code)
+class _Run:
+    """one element tree with the harness validators installed; `events` interleaves validator invocations
+    ["c", id, descending-list?, idx] and signal emissions ["s", id, sender, result]"""
 
-        def validator(element, state):
-            log.append([nid, descending, idx])
-            return outcome
-        return validator
+    def __init__(self, tree):
+        self.schema = _schema_for(tree, "root")
+        self.root = self.schema()
+        self.root.set(_blank(tree))
+        self.events = []
+        self.byid = {}
+        self.idof = {}
+        self.flags = {}
 
-    def dress(el, node):
-        byid[node["id"]] = el
-        el.optional = node["opt"]
-        if node["c"]:
-            el.descent_validators = [mk(node["id"], True, i, c) for i, c in enumerate(node["down"])]
-            el.validators = [mk(node["id"], False, i, c) for i, c in enumerate(node["up"])]
-        else:
-            el.validators = [mk(node["id"], True, i, c) for i, c in enumerate(node["down"])]
-            if bool(el.is_empty) != node["empty"]:
-                el.set(None if node["empty"] else "x")
-        kids = _children(el, node)
-        assert len(kids) == len(node["kids"])
-        for ke, kn in zip(kids, node["kids"]):
-            dress(ke, kn)
-    dress(root, tree)
+    def dress(self, tree):
+        """(Re)assign optional flags, validator lists and scalar emptiness of every element."""
+        events = self.events
+
+        def mk(nid, descending, idx, code):
+            outcome = _outcome_obj(code)
+
+            def validator(element, state):
+                events.append(["c", nid, descending, idx])
+                return outcome
+            validator.c05 = (nid, descending, idx)
+            return validator
+
+        def go(el, node):
+            self.byid[node["id"]] = el
+            self.idof[id(el)] = node["id"]
+            el.optional = node["opt"]
+            vd, vu = _flags(el)
+            self.flags[node["id"]] = (vd, vu)
+            # the attribute each class really reads for descent / ascent
+            if vd:
+                setattr(el, vd, [mk(node["id"], True, i, c) for i, c in enumerate(node["down"])])
+            if vu:
+                setattr(el, vu, [mk(node["id"], False, i, c) for i, c in enumerate(node["up"])])
+            if node["k"] in LEAF_KINDS:
+                el.set(_leaf_value(node))        # the intended content, whatever the library says about it
+            kids = list(el.children)             # as the library's `children` property yields them
+            if len(kids) != len(node["kids"]):
+                # an observation about the library (reported by the oracle), not a crash of the harness
+                raise _ChildrenMismatch("%s (element %d) yields %d children, built with %d" % (
+                    type(el).__name__, node["id"], len(kids), len(node["kids"])))
+            for ke, kn in zip(kids, node["kids"]):
+                go(ke, kn)
+        go(self.root, tree)
+
+    def model_tree(self, tree):
+        """the model's input: container? is COMPUTED from the class flags (an element that names an ascent list
+        is the `Container._validate` variant), `down` / `up` are the lists installed under the two flags"""
+        def go(node):
+            vd, vu = self.flags[node["id"]]
+            return {"id": node["id"], "c": vu is not None, "opt": bool(node["opt"]), "empty": bool(node["empty"]),
+                    "down": list(node["down"]) if vd else [], "up": list(node["up"]) if vu else [],
+                    "kids": [go(x) for x in node["kids"]]}
+        return go(tree)
 
 
 def _preorder(node):
@@ -133,14 +271,40 @@ def _preorder(node):
 
 def _valid_code(el):
     from flatland.schema.base import Unevaluated
-    if el.valid is Unevaluated:
+    v = el.valid if hasattr(el, "valid") else el
+    if v is Unevaluated:
         return "U"
-    if el.valid is True:
+    if v is True:
         return "T"
-    if el.valid is False:
+    if v is False:
         return "F"
-    return "X:%r" % (el.valid,)        # validate() stores bool(...) or Unevaluated, nothing else
+    return "X:%r" % (v,)        # validate() stores bool(...) or Unevaluated, nothing else
 
+
+def _result_code(v):
+    from flatland.schema.base import Skip, SkipAll, SkipAllFalse
+    for code, obj in (("S", Skip), ("SA", SkipAll), ("SAF", SkipAllFalse)):
+        if v is obj:
+            return code
+    if v is True:
+        return "T"
+    if v is False:
+        return "F"
+    if v is None:
+        return "N"
+    return "X:%r" % (v,)
+
+
+def _history(case):
+    """[(op, tree, at, value)] — {"tree", "rounds"} of the older cases is a history of full validations"""
+    tree = case["tree"]
+    if "hist" not in case:
+        return [("validate", tree, None, None)] + [("validate", r, None, None) for r in case.get("rounds", [])]
+    out = []
+    for st in case["hist"]:
+        tree = st.get("tree", tree)
+        out.append((st["op"], tree, st.get("at"), st.get("value")))
+    return out
 
 # ---------------------------------------------------------------- oracle (spec B in Python)
 
@@ -163,19 +327,71 @@ def _element_verdict(node, codes):
     return _list_verdict(codes)
 
 
+def _isc(node):
+    return DOC_CONTAINER[node["k"]]
+
+
 def _down(node):
-    if node["c"] and not node["down"]:
+    if _isc(node) and not node["down"]:
         return "U", 0
     return _element_verdict(node, node["down"])
 
 
 def _up(node):
-    if not node["c"]:
+    if not _isc(node):
         return "U", 0
     return _element_verdict(node, node["up"])
 
 
+def _events(node, codes, descending):
+    """documented signal emission: one signal right after each validator invoked, with its raw result; the
+    fallback check of an element without validators reports with sender NotEmpty"""
+    if node["empty"] and node["opt"]:
+        return []
+    if not codes:
+        return [["s", node["id"], "NE", "F" if node["empty"] else "T"]]
+    out = []
+    for idx, c in enumerate(codes):
+        out.append(["c", node["id"], descending, idx])
+        out.append(["s", node["id"], ["v", descending, idx], c])
+        if c != "T":
+            break
+    return out
+
+
+def _down_events(node):
+    if _isc(node) and not node["down"]:
+        return []
+    return _events(node, node["down"], True)
+
+
+def _up_events(node):
+    return _events(node, node["up"], False) if _isc(node) else []
+
+
 _TRUTHY = {"U": True, "T": True, "SA": True, "F": False, "SAF": False}
+
+
+def _verdict(n):
+    d, u = _down(n)[0], _up(n)[0]
+    if d == "U" and u == "U":
+        return "U"
+    if d == "U":
+        return "T" if _TRUTHY[u] else "F"
+    if u == "U":
+        return "T" if _TRUTHY[d] else "F"
+    return "T" if (_TRUTHY[d] and _TRUTHY[u]) else "F"
+
+
+def _find(tree, nid):
+    for n in _preorder(tree):
+        if n["id"] == nid:
+            return n
+    raise KeyError(nid)
+
+
+def _store(tree, now):
+    return [[n["id"], now[n["id"]]] for n in _preorder(tree)]
 
 
 def expected(tree, prev=None):
@@ -190,27 +406,48 @@ def expected(tree, prev=None):
                 nxt.extend(n["kids"])
         level = nxt
     log = []
+    trace = []
     for n in visited:
         log += [[n["id"], True, i] for i in range(_down(n)[1])]
+        trace += _down_events(n)
     for n in reversed(visited):
         log += [[n["id"], False, i] for i in range(_up(n)[1])]
-    verdict = {}
-    for n in visited:
-        d, u = _down(n)[0], _up(n)[0]
-        if d == "U" and u == "U":
-            v = "U"
-        elif d == "U":
-            v = "T" if _TRUTHY[u] else "F"
-        elif u == "U":
-            v = "T" if _TRUTHY[d] else "F"
-        else:
-            v = "T" if (_TRUTHY[d] and _TRUTHY[u]) else "F"
-        verdict[n["id"]] = v
+        trace += _up_events(n)
+    verdict = {n["id"]: _verdict(n) for n in visited}
     ret = all(v != "F" for v in verdict.values())
     # unvisited elements keep whatever an earlier call left (Unevaluated on a fresh tree)
     now = {n["id"]: verdict.get(n["id"], prev.get(n["id"], "U")) for n in _preorder(tree)}
-    valids = [[n["id"], now[n["id"]]] for n in _preorder(tree)]
-    return {"ret": ret, "valids": valids, "log": log, "all_valid": all(v != "F" for v in now.values())}, now
+    return {"ret": ret, "valids": _store(tree, now), "log": log, "trace": trace,
+            "all_valid": all(v != "F" for v in now.values())}, now
+
+
+def expected_norecurse(tree, at, prev=None):
+    """documented: "recurse: if False, do not validate children" — the element's OWN verdict by the same rules,
+    nothing else invoked, nobody else's .valid written"""
+    prev = prev or {}
+    n = _find(tree, at)
+    log = [[n["id"], True, i] for i in range(_down(n)[1])] + [[n["id"], False, i] for i in range(_up(n)[1])]
+    now = {m["id"]: prev.get(m["id"], "U") for m in _preorder(tree)}
+    now[at] = _verdict(n)
+    return {"ret": now[at], "valids": _store(tree, now), "log": log, "trace": _down_events(n) + _up_events(n),
+            "all_valid": all(v != "F" for v in now.values()),
+            "at_all_valid": all(now[m["id"]] != "F" for m in _preorder(n))}, now
+
+
+def expected_set(tree, at, value, prev=None):
+    prev = prev or {}
+    n = _find(tree, at)
+    now = {m["id"]: prev.get(m["id"], "U") for m in _preorder(tree)}
+    for m in _preorder(n):
+        now[m["id"]] = value
+    return {"valids": _store(tree, now), "all_valid": all(v != "F" for v in now.values()),
+            "at_all_valid": value != "F"}, now
+
+
+def _override_class(node):
+    """class predicate of KF-C05-a: the element's descent list failed and its ascent list passed"""
+    d, u = _down(node)[0], _up(node)[0]
+    return d != "U" and u != "U" and not _TRUTHY[d] and _TRUTHY[u]
 
 
 def _reassign(rng, tree):
@@ -220,19 +457,43 @@ def _reassign(rng, tree):
     for n in _preorder(t):
         n["opt"] = rng.random() < 0.4
         n["down"] = _rand_outcomes(rng)
-        if n["c"]:
+        if n["k"] not in LEAF_KINDS:
             n["up"] = _rand_outcomes(rng)
         elif rng.random() < 0.5:
             n["empty"] = rng.random() < 0.4
-    return t
+    return _fix_empty(t)
+
+
+def _legacy(node):
+    """older corpus / exhaustive cases say "c" and no leaf kind: nothing to do, "k" is all that is read"""
+    return node
 
 
 class C05(Property):
     id = "C05"
     title = "validate() follows the documented two-phase, all-elements algorithm"
-    proof_module = "Proofs.C05Store"
-    level_text = 'Lean 4 refinement theorem `validate_refines`: the queue algorithm of Element.validate equals the documented declarative semantics (level order over the tree pruned at SkipAll/SkipAllFalse; per-element verdict; exact call log; return value) for every tree and every outcome assignment; corollaries for each clause; the `.valid` store across calls is part of the model (`validNow`): `unvisited_untouched`, `visited_own_verdict`, `revalidate_store`, and `fresh_ret_eq_all_valid` (return value = all_valid over EVERY element of a fresh tree, for trees with distinct elements). The real validate_element and re-validation of the same element tree are tied by correspondence (exhaustive 2-node scope + random trees, 1-3 re-validations).'
-    level_note = 'Trusted: Lean kernel + 3 standard axioms; hand-written model Flatland/C05.lean; validators are black boxes returning one of the six outcomes; trees without shared nodes; blinker signals not modelled; validate(recurse=False) not covered.'
+    proof_module = "Proofs.C05Ext"
+    level_text = ('Lean 4 refinement theorem `validate_refines`: the queue algorithm of Element.validate equals the documented declarative '
+                  'semantics (level order over the tree pruned at SkipAll/SkipAllFalse; per-element verdict; exact call log; return value) for every '
+                  'tree and every outcome assignment; corollaries for each clause; the `.valid` store across calls is part of the model: '
+                  '`unvisited_untouched`, `visited_own_verdict`, `revalidate_store`, `fresh_ret_eq_all_valid`, generalised by '
+                  '`ret_eq_all_valid_of_store` / `ret_eq_all_valid_after_set` to every history that leaves the unvisited elements truthy (the '
+                  '`all_valid` setter before validating) and refuted otherwise (`ret_ne_all_valid_after_set_false`); `all_valid_after_set` '
+                  '(setter writes the element and all descendants, getter = conjunction, nothing outside written), `all_valid_getter_level_order`. '
+                  '`validate(recurse=False)`: `validate_norecurse_refines` (as written: descent then ascent on the one element, exact log, last '
+                  'evaluating phase decides), `norecurse_children_untouched`; the DOCUMENTED statement (own verdict by the rules of the full '
+                  'algorithm) is `NoRecurse_Full`, proved under `phasesAgree` (`validate_norecurse_refines_partial`, `norecurse_eq_single`) and '
+                  'refuted by a witness (`norecurse_full_fails`, finding KF-C05-a). `validator_validated`: `trace_refines` (one signal right '
+                  'after each validator invoked, raw result, NotEmpty for the fallback), `signals_eq_calls` (invocations in the trace = call log), '
+                  '`trace_signals`, `norecurse_trace_refines`. Tied to the real code by correspondence on histories (full validations, '
+                  'recurse=False on a random element after 0-2 full validations, all_valid assignments, 40% with a receiver connected) over trees '
+                  'of EVERY element kind (String/Integer/Boolean, Dict, SparseDict, List, Array, MultiValue, JoinedString, DateYYYYMMDD), the '
+                  'container / non-container variant of each node computed from the class flags validates_down / validates_up at run time.')
+    level_note = ('Trusted: Lean kernel + 3 standard axioms; hand-written model Flatland/C05.lean; validators are black boxes returning one of the '
+                  'six outcomes; trees without shared nodes; the model distinguishes the two `_validate` variants only (which class is which: '
+                  'Proofs.ClassTable.validates_agree / validate_definers on the regenerated class table, and the flags read at run time); '
+                  'is_empty of a node is an input of the model, compared on every step with the real is_empty and with the documented per-kind '
+                  'definition; blinker dispatch itself (receiver lookup, weak references) is not modelled, only what validate_element sends.')
     technique = 'Lean 4 proof (refinement of a queue loop to a declarative spec); differential correspondence incl. exhaustive small scope; Python oracle'
     theorems = [
         "Flatland.C05.Proofs.validate_refines",
@@ -248,22 +509,41 @@ class C05(Property):
         "Flatland.C05.Proofs.visited_ids_nodup",
         "Flatland.C05.Proofs.fresh_ret_eq_all_valid",
         "Flatland.C05.Proofs.revalidate_store",
+        "Flatland.C05.Proofs.validate_norecurse_refines",
+        "Flatland.C05.Proofs.norecurse_log_refines",
+        "Flatland.C05.Proofs.validate_norecurse_refines_partial",
+        "Flatland.C05.Proofs.norecurse_full_fails",
+        "Flatland.C05.Proofs.norecurse_eq_single",
+        "Flatland.C05.Proofs.norecurse_ret_is_bool",
+        "Flatland.C05.Proofs.norecurse_children_untouched",
+        "Flatland.C05.Proofs.all_valid_after_set",
+        "Flatland.C05.Proofs.all_valid_getter_level_order",
+        "Flatland.C05.Proofs.ret_eq_all_valid_of_store",
+        "Flatland.C05.Proofs.ret_eq_all_valid_after_set",
+        "Flatland.C05.Proofs.ret_ne_all_valid_after_set_false",
+        "Flatland.C05.Proofs.signals_eq_calls",
+        "Flatland.C05.Proofs.trace_refines",
+        "Flatland.C05.Proofs.trace_signals",
+        "Flatland.C05.Proofs.norecurse_trace_refines",
     ]
     trusted_base = [
         "validators modelled as black boxes returning one of the six outcomes and logging their call",
         "element tree has no shared nodes (the `seen` set of the loop is not modelled)",
-        "blinker signal dispatch (validator_validated) not modelled",
+        "blinker dispatch (receiver bookkeeping) not modelled: the model says what validate_element sends while a receiver is connected",
     ]
     assumptions = [
-        "is_empty/optional of a node are inputs of the model; the harness asserts they match the real element",
-        "validate(recurse=False) is not covered",
+        "is_empty/optional of a node are inputs of the model; every step compares the real is_empty of every element with the model input and with the documented per-kind definition (oracle clause is-empty-means-no-content)",
+        "container? of a node is computed from the real class flags (validates_up is not None) when the case runs; down/up lists are installed under the attributes the flags name",
+        "validate(recurse=False): the documented own-verdict statement holds under phasesAgree only (KF-C05-a: a passing ascent list overrides a failed descent list)",
     ]
-    rule = ("(half of the cases re-validate the same element tree 1-3 more times with new outcomes, flags and scalar emptiness) "
-            "trees of String/Dict/List nodes (List members share one member schema), per-node optional/empty flags and "
-            "0-3 outcomes per validator list; exhaustive sub-space: every 2-node tree (container root + one scalar) over "
-            "all outcome lists of length <=1 and all flags; non-trivial = at least 2 validators invoked or a SkipAll cut "
-            "or an optional-empty skip; distinct = distinct canonical case JSON")
-    exhaustive_note = "all 2-node trees (Dict or List root with one String child), validator lists of length <= 1, all flags; plus every ordered tree shape with 2-3 nodes (thorough: 2-4) (scalar leaves) under a Dict root, descent lists from {none,T,F,SkipAll,SkipAllFalse}, ascent lists from {none,T,F}"
+    rule = ("histories on ONE element tree: 1-5 steps from {validate(), validate(recurse=False) on a random element, el.all_valid = True/False/"
+            "Unevaluated on a random element}, later steps re-assigning outcomes / optional flags / leaf emptiness for half of the steps; 40% of the "
+            "cases with a receiver connected to validator_validated (disconnected afterwards; the oracle checks none is left); trees of String / "
+            "Integer / Boolean leaves (non-empty leaves also hold the falsy 0 / False), Dict, SparseDict (present + absent fields), List (one member "
+            "shape), Array / MultiValue (scalar members), JoinedString, DateYYYYMMDD; a third of the sequences have only falsy members; 0-3 outcomes "
+            "per validator list; exhaustive sub-space: every 2-node tree (container root + one scalar) over all outcome lists of length <=1 and all "
+            "flags; non-trivial = at least 2 validators invoked or an element left Unevaluated; distinct = distinct canonical case JSON")
+    exhaustive_note = "all 2-node trees (Dict or List root with one String child), validator lists of length <= 1, all flags; plus every ordered tree shape with 2-3 nodes (thorough: 2-4) (scalar leaves) under a Dict root, descent lists from {none,T,F,SkipAll,SkipAllFalse}, ascent lists from {none,T,F}; full validate() only (recurse=False / all_valid / signals: generated histories)"
     quick_n = 3000
     thorough_n = 150000
 
@@ -278,7 +558,52 @@ class C05(Property):
             {"k": "s", "c": False, "opt": False, "empty": False, "down": ["T"], "up": [], "kids": []}]}
         second = copy.deepcopy(first)
         second["up"] = ["T"]
-        return [{"tree": _number(t)}, {"tree": _number(first), "rounds": [_number(second)]}]
+        cases = [{"tree": _number(t)}, {"tree": _number(first), "rounds": [_number(second)]}]
+
+        def leaf(k="s", down=(), opt=False, empty=False):
+            return {"k": k, "opt": opt, "empty": empty, "down": list(down), "up": [], "kids": []}
+
+        def cont(k, kids, down=(), up=(), opt=False, **kw):
+            return dict({"k": k, "opt": opt, "empty": False, "down": list(down), "up": list(up), "kids": kids}, **kw)
+        # KF-C05-a: recurse=False lets a passing ascent list override a failed descent list
+        w = _number(_fix_empty(cont("d", [leaf()], down=["F"], up=["T"])))
+        cases.append({"tree": w, "hist": [{"op": "norecurse", "at": 0}, {"op": "validate"}], "signal": True})
+        # every container kind once, descent and ascent validators on each, scalar members with validators
+        allk = cont("d", [
+            cont("sd", [leaf("i", ["T"])], down=["T"], up=["T", "F"], absent=1),
+            cont("l", [cont("c", [leaf("i", ["T"]), leaf("i", [], empty=True), leaf("i", ["F"], opt=True, empty=True)],
+                            down=["T"], up=["S", "F"])], down=["T"], up=["T"]),
+            cont("a", [leaf("s", ["T", "F"]), leaf("s", [], empty=True)], down=["T"], up=["N"], member="s"),
+            cont("m", [leaf("i", ["SA"]), leaf("i", ["T"])], down=["T", "T"], up=["T"], member="i"),
+            cont("j", [leaf("s", ["T"]), leaf("s", ["F"], empty=True)], down=["SAF"], up=["T"]),
+            cont("j", [], down=[], up=[], opt=True),
+            cont("m", [], down=["T"], up=[], member="s"),
+            cont("c", [leaf("i", [], empty=True), leaf("i", [], empty=True), leaf("i", [], empty=True)], down=["T"], up=["F"], opt=True),
+        ], down=["T"], up=["T"])
+        allk = _number(_fix_empty(allk))
+        cases.append({"tree": allk, "hist": [{"op": "validate"}], "signal": True})
+        cases.append({"tree": allk, "hist": [{"op": "set_all_valid", "at": 0, "value": "T"}, {"op": "validate"},
+                                             {"op": "norecurse", "at": 12}, {"op": "set_all_valid", "at": 4, "value": "F"},
+                                             {"op": "norecurse", "at": 4}, {"op": "validate"}], "signal": False})
+        # the setter with False before validating: unvisited elements stay False, return value True
+        cut = _number(_fix_empty(cont("d", [leaf("s", ["T"])], down=["SA"])))
+        cases.append({"tree": cut, "hist": [{"op": "set_all_valid", "at": 0, "value": "F"}, {"op": "validate"}], "signal": True})
+        # seeded C05-sequence-is-empty-any-children: sequences whose members are all falsy elements (0, False, no
+        # value, empty inner lists) are NOT empty - optional ones run their validators, required ones without
+        # validators pass the default check
+        zero = dict(leaf("i", ["T"]), zero=True)
+        fz = cont("d", [
+            cont("l", [dict(zero)], down=["T"], up=["F"], opt=True),
+            cont("l", [dict(zero), dict(zero)]),
+            cont("a", [dict(leaf("b"), zero=True)], down=["F"], up=["T"], opt=True, member="b"),
+            cont("m", [dict(leaf("i"), zero=True)], up=["N"], opt=True, member="i"),
+            cont("j", [leaf("s", empty=True)], down=["T"], up=["T", "F"], opt=True),
+            cont("l", [cont("l", []), cont("l", [])], up=["F"], opt=True),
+            cont("l", [leaf("s", ["T"], empty=True, opt=True)]),
+        ], down=["T"], up=["T"])
+        fz = _number(_fix_empty(fz))
+        cases.append({"tree": fz, "hist": [{"op": "validate"}, {"op": "norecurse", "at": 1}], "signal": True})
+        return cases
 
     def exhaustive(self, tier):
         opts = [[]] + [[o] for o in OUTCOMES]
@@ -352,112 +677,290 @@ class C05(Property):
         for _ in range(n):
             depth = rng.choice([1, 2, 2, 3, 3, 4])
             shape = _rand_shape(rng, depth, [rng.choice([4, 8, 12, 16])])
-            if shape[0] == "s" and rng.random() < 0.8:
+            if shape[0] in LEAF_KINDS and rng.random() < 0.8:
                 shape = ("d", [shape, ("s",)])
-            tree = _number(_instantiate(rng, shape))
-            case = {"tree": tree}
-            if rng.random() < 0.5:
-                case["rounds"] = [_reassign(rng, tree) for _ in range(rng.choice([1, 1, 2, 3]))]
-            yield case
+            tree = _number(_fix_empty(_instantiate(rng, shape)))
+            ids = [m["id"] for m in _preorder(tree)]
+            # a history on the one element tree: full validations, validate(recurse=False) on a random element
+            # (after 0-2 full validations), `el.all_valid = v` on a random element (also BEFORE the first validation)
+            hist = []
+            cur = tree
+            full = 0
+            for step in range(rng.choice([1, 1, 2, 2, 3, 4, 5])):
+                r = rng.random()
+                if r < 0.5 and full < 3:
+                    st = {"op": "validate"}
+                    full += 1
+                elif r < 0.8:
+                    st = {"op": "norecurse", "at": rng.choice(ids)}
+                else:
+                    st = {"op": "set_all_valid", "at": rng.choice(ids[:3] if rng.random() < 0.5 else ids),
+                          "value": rng.choice(["T", "T", "F", "U"])}
+                if hist and st["op"] != "set_all_valid" and rng.random() < 0.5:
+                    cur = _reassign(rng, cur)
+                    st["tree"] = cur
+                hist.append(st)
+            if all(st["op"] == "set_all_valid" for st in hist):
+                hist.append({"op": "validate"})
+            yield {"tree": tree, "hist": hist, "signal": rng.random() < 0.4}
 
-    def _observe(self, root, byid, tree, log, start):
-        ret = root.validate()
-        return {
-            "ret": ret if isinstance(ret, bool) else repr(ret),      # validate() returns a bool
-            "valids": [[n["id"], _valid_code(byid[n["id"]])] for n in _preorder(tree)],
-            "log": log[start:],
-            "all_valid": bool(root.all_valid),
-        }
+    # -------------------------------------------------------------------------------- real implementation
 
     def run_impl(self, case):
-        tree = case["tree"]
-        root, byid, log = _build(tree)
-        for n in _preorder(tree):
-            assert bool(byid[n["id"]].is_empty) == n["empty"], "harness: is_empty mismatch"
-        obs = self._observe(root, byid, tree, log, 0)
-        rounds = []
-        for rt in case.get("rounds", []):
-            start = len(log)
-            _dress(root, rt, byid, log)
-            for n in _preorder(rt):
-                assert bool(byid[n["id"]].is_empty) == n["empty"], "harness: is_empty mismatch"
-            rounds.append(self._observe(root, byid, rt, log, start))
-        obs["rounds"] = rounds
-        return obs
+        from flatland.signals import validator_validated
+        from flatland.schema import base
+        hist = _history(case)
+        run = _Run(case["tree"])
+        want_signal = bool(case.get("signal"))
+        try:
+            run.dress(case["tree"])
+        except _ChildrenMismatch as e:
+            return {"steps": [], "children_as_built": str(e), "_hist": [], "_receivers_left": 0, "_classes": []}
+
+        def receiver(sender, element=None, state=None, result=None, **kw):
+            nid = run.idof.get(id(element), -1)
+            if sender is base.NotEmpty:
+                who = "NE"
+            else:
+                tag = getattr(sender, "c05", None)
+                # the sender is the validator that ran, on the element it ran on
+                who = ["v", tag[1], tag[2]] if tag is not None and tag[0] == nid else "X:foreign-sender"
+            run.events.append(["s", nid, who, _result_code(result)])
+
+        steps = []
+        model_hist = []
+        if want_signal:
+            validator_validated.connect(receiver, weak=False)
+        try:
+            for op, tree, at, value in hist:
+                try:
+                    run.dress(tree)
+                except _ChildrenMismatch as e:
+                    return {"steps": steps, "children_as_built": str(e), "_hist": model_hist,
+                            "_receivers_left": 0, "_classes": []}
+                mt = run.model_tree(tree)
+                start = len(run.events)
+                o = {}
+                if op == "validate":
+                    ret = run.root.validate()
+                    o["ret"] = ret if isinstance(ret, bool) else repr(ret)      # validate() returns a bool
+                    model_hist.append({"op": op, "tree": mt})
+                elif op == "norecurse":
+                    o["ret"] = _valid_code(run.byid[at].validate(recurse=False))
+                    model_hist.append({"op": op, "tree": mt, "at": at})
+                else:
+                    run.byid[at].all_valid = _valid_obj(value)
+                    model_hist.append({"op": op, "tree": mt, "at": at, "value": value})
+                ev = run.events[start:]
+                if op != "set_all_valid":
+                    o["log"] = [e[1:] for e in ev if e[0] == "c"]
+                    o["trace"] = ev if want_signal else None
+                if op != "validate":
+                    o["at_all_valid"] = bool(run.byid[at].all_valid)
+                o["valids"] = [[m["id"], _valid_code(run.byid[m["id"]])] for m in _preorder(tree)]
+                o["all_valid"] = bool(run.root.all_valid)
+                # the model's is_empty input, against each kind's real is_empty
+                o["empties"] = [[m["id"], bool(run.byid[m["id"]].is_empty)] for m in _preorder(tree)]
+                steps.append(o)
+        finally:
+            if want_signal:
+                validator_validated.disconnect(receiver)
+        return {"steps": steps, "_hist": model_hist, "_receivers_left": len(validator_validated.receivers),
+                "_classes": sorted({type(e).__name__ for e in run.byid.values()})}
+
+    def model_input(self, case, obs):
+        # the model trees are computed by the run from the real classes' flags (validates_down / validates_up)
+        if not obs or "_hist" not in obs:
+            return {"hist": [], "signal": False}
+        return {"hist": obs["_hist"], "signal": bool(case.get("signal"))}
+
+    # -------------------------------------------------------------------------------- oracle
 
     def oracle(self, case):
+        import flatland
         obs = self.run_impl(case)
         fails = []
         prev = {}
-        trees = [case["tree"]] + case.get("rounds", [])
-        observed = [obs] + obs["rounds"]
-        for r, (t, o) in enumerate(zip(trees, observed)):
-            exp, prev = expected(t, prev)
-            tag = "" if r == 0 else " (re-validation %d of the same tree)" % r
-            if o["log"] != exp["log"]:
-                fails.append({"clause": "invocation-order" + tag, "expected": exp["log"], "observed": o["log"]})
+        if "children_as_built" in obs:
+            return [{"clause": "children-as-built", "expected": "`children` yields the members / fields the element was built with",
+                     "observed": obs["children_as_built"]}]
+        if obs["_receivers_left"]:
+            fails.append({"clause": "harness: receiver left connected", "observed": obs["_receivers_left"]})
+        for r, ((op, tree, at, value), o) in enumerate(zip(_history(case), obs["steps"])):
+            tag = " (step %d: %s%s)" % (r, op, "" if at is None else " at %d" % at)
+            want_empty = [[m["id"], bool(m["empty"])] for m in _preorder(tree)]
+            if o["empties"] != want_empty:
+                # emptiness as DOCUMENTED per kind (`_doc_empty`: a sequence / SparseDict is empty iff it has no
+                # member, whatever the members hold), not as the library under test computes it
+                fails.append({"clause": "is-empty-means-no-content" + tag, "expected": want_empty, "observed": o["empties"]})
+            if op == "validate":
+                exp, now = expected(tree, prev)
+            elif op == "norecurse":
+                exp, now = expected_norecurse(tree, at, prev)
+            else:
+                exp, now = expected_set(tree, at, value, prev)
+            if op != "set_all_valid":
+                if o["log"] != exp["log"]:
+                    fails.append({"clause": "invocation-order" + tag, "expected": exp["log"], "observed": o["log"]})
+                if o["trace"] is not None and o["trace"] != exp["trace"]:
+                    fails.append({"clause": "signal-per-invocation" + tag, "expected": exp["trace"], "observed": o["trace"]})
+                if o["ret"] != exp["ret"]:
+                    clause = "return-value" if op == "validate" else "norecurse-own-verdict"
+                    fails.append({"clause": clause + tag, "expected": exp["ret"], "observed": o["ret"],
+                                  "at": at, "step": r})
             if o["valids"] != exp["valids"]:
-                fails.append({"clause": "valid-flags" + tag, "expected": exp["valids"], "observed": o["valids"]})
-            if o["ret"] != exp["ret"]:
-                fails.append({"clause": "return-value" + tag, "expected": exp["ret"], "observed": o["ret"]})
-            if o["all_valid"] != exp["all_valid"]:
-                fails.append({"clause": "all_valid" + tag, "expected": exp["all_valid"], "observed": o["all_valid"]})
-            if r == 0 and o["all_valid"] != o["ret"]:
-                fails.append({"clause": "return-equals-all_valid", "expected": o["ret"], "observed": o["all_valid"]})
+                clause = {"validate": "valid-flags", "norecurse": "norecurse-valid-flags",
+                          "set_all_valid": "all_valid-setter"}[op]
+                fails.append({"clause": clause + tag, "expected": exp["valids"], "observed": o["valids"],
+                              "at": at, "step": r})
+            if o["all_valid"] != all(v != "F" for _, v in o["valids"]):
+                fails.append({"clause": "all_valid-getter" + tag, "expected": all(v != "F" for _, v in o["valids"]),
+                              "observed": o["all_valid"]})
+            if op != "validate":
+                sub = {m["id"] for m in _preorder(_find(tree, at))}
+                want = all(v != "F" for i, v in o["valids"] if i in sub)
+                if o["at_all_valid"] != want:
+                    fails.append({"clause": "all_valid-getter-subtree" + tag, "expected": want, "observed": o["at_all_valid"]})
+            if op == "validate" and all(v != "F" for v in prev.values()) and o["all_valid"] != o["ret"]:
+                # fresh tree, or every flag left truthy (e.g. by `all_valid = True`): return value = all_valid
+                fails.append({"clause": "return-equals-all_valid" + tag, "expected": o["ret"], "observed": o["all_valid"]})
             if fails:
                 break
+            # the history goes on from what the library really left (a recorded finding must not cascade)
+            prev = {i: v for i, v in o["valids"]}
         return fails
 
+    def classify(self, case, failure):
+        clause = failure.get("clause", "")
+        if clause.startswith("norecurse-own-verdict") or clause.startswith("norecurse-valid-flags"):
+            hist = _history(case)
+            r, at = failure.get("step"), failure.get("at")
+            if r is None or at is None or r >= len(hist):
+                return None
+            node = _find(hist[r][1], at)
+            if not _override_class(node):
+                return None
+            # the only difference: this element reads True where its own verdict is False
+            if clause.startswith("norecurse-own-verdict"):
+                return "KF-C05-a" if (failure["expected"], failure["observed"]) == ("F", "T") else None
+            diff = [(e, o) for e, o in zip(failure["expected"], failure["observed"]) if e != o]
+            return "KF-C05-a" if diff == [([at, "F"], [at, "T"])] else None
+        return None
+
     def nontrivial(self, case, obs):
-        if len(obs["log"]) >= 2:
+        calls = sum(len(o.get("log", [])) for o in obs["steps"])
+        if calls >= 2:
             return True
-        return any(v == "U" for _, v in obs["valids"][1:])
+        return any(v == "U" for o in obs["steps"] for _, v in o["valids"][1:])
 
     def tags(self, case, obs):
+        hist = _history(case)
         nodes = list(_preorder(case["tree"]))
-        t = ["nodes=%d" % min(len(nodes), 12), "ret=%s" % obs["ret"]]
-        if any(_down(n)[0] in ("SA", "SAF") for n in nodes):
+        t = ["nodes=%d" % min(len(nodes), 12), "steps=%d" % len(hist)]
+        for k in sorted({n["k"] for n in nodes}):
+            t.append("kind=" + KIND_CLASS[k])
+        for c in obs.get("_classes", []):
+            t.append("class=" + c)
+        for op in sorted({h[0] for h in hist}):
+            t.append("op=" + op)
+        if hist[0][0] == "set_all_valid" and any(h[0] == "validate" for h in hist):
+            t.append("setter-before-validate")
+        full = 0
+        for h in hist:
+            if h[0] == "validate":
+                full += 1
+            elif h[0] == "norecurse":
+                t.append("norecurse-after-%d-full" % min(full, 2))
+                n = _find(h[1], h[2])
+                t.append("norecurse-on=" + KIND_CLASS[n["k"]])
+                if _override_class(n):
+                    t.append("norecurse-override(KF-C05-a)")
+        if case.get("signal"):
+            t.append("signal-receiver")
+            if any(e[0] == "s" and e[2] == "NE" for o in obs["steps"] for e in (o.get("trace") or [])):
+                t.append("signal-NotEmpty")
+        if any(_down(n)[0] in ("SA", "SAF") for h in hist for n in _preorder(h[1])):
             t.append("has-skipall")
-        if any(n["opt"] and n["empty"] for n in nodes):
+        if any(n["opt"] and n["empty"] for h in hist for n in _preorder(h[1])):
             t.append("has-optional-empty")
-        if any(v == "U" for _, v in obs["valids"]):
+        if any(v == "U" for o in obs["steps"] for _, v in o["valids"]):
             t.append("has-unevaluated")
-        t.append("calls=%d" % min(len(obs["log"]), 10))
-        t.append("rounds=%d" % len(case.get("rounds", [])))
+        t.append("calls=%d" % min(sum(len(o.get("log", [])) for o in obs["steps"]), 10))
         return t
 
     def shrink_candidates(self, case):
         import copy
-        if case.get("rounds"):
-            for i in range(len(case["rounds"])):
+        if "hist" not in case:
+            case = dict(case, hist=[{"op": "validate"}] + [{"op": "validate", "tree": r} for r in case.get("rounds", [])])
+            case.pop("rounds", None)
+        hist = case["hist"]
+        if len(hist) > 1:
+            for i in range(len(hist)):
                 c = copy.deepcopy(case)
-                del c["rounds"][i]
+                dropped = c["hist"].pop(i)
+                if i == 0 and "tree" in c["hist"][0]:
+                    c["tree"] = c["hist"][0].pop("tree")
                 yield c
+        if case.get("signal"):
+            c = copy.deepcopy(case)
+            c["signal"] = False
+            yield c
+        # later assignments dropped: every step runs on the first tree
+        if any("tree" in st for st in hist):
+            c = copy.deepcopy(case)
+            for st in c["hist"]:
+                st.pop("tree", None)
+            yield c
             return
         tree = case["tree"]
+        used = {st.get("at") for st in hist}
         nodes = list(_preorder(tree))
-        # drop a subtree (only below dict nodes with >1 kid, or list members)
+
+        def variant(t):
+            ids_before = [m["id"] for m in _preorder(t)]
+            c = copy.deepcopy(case)
+            c["tree"] = _fix_empty(t)
+            remap = {}
+            for new, m in enumerate(_preorder(c["tree"])):
+                remap[m["id"]] = new
+            for st in c["hist"]:
+                if "at" in st:
+                    if st["at"] not in remap:
+                        return None
+                    st["at"] = remap[st["at"]]
+            _number(c["tree"])
+            return c
+        # drop a subtree (a Dict keeps one field, a Compound its three)
         for n in nodes:
             for i in range(len(n["kids"])):
-                if n["k"] == "d" and len(n["kids"]) == 1:
+                if (n["k"] == "d" and len(n["kids"]) == 1) or n["k"] == "c":
                     continue
-                c = copy.deepcopy(tree)
-                target = [m for m in _preorder(c) if m["id"] == n["id"]][0]
+                t = copy.deepcopy(tree)
+                target = [m for m in _preorder(t) if m["id"] == n["id"]][0]
                 del target["kids"][i]
-                if target["k"] == "l":
-                    target["empty"] = not target["kids"]
-                yield {"tree": _number(c)}
+                v = variant(t)
+                if v is not None:
+                    yield v
         for n in nodes:
             for key in ("down", "up"):
                 for i in range(len(n[key])):
-                    c = copy.deepcopy(tree)
-                    target = [m for m in _preorder(c) if m["id"] == n["id"]][0]
+                    t = copy.deepcopy(tree)
+                    target = [m for m in _preorder(t) if m["id"] == n["id"]][0]
                     del target[key][i]
-                    yield {"tree": c}
+                    v = variant(t)
+                    if v is not None:
+                        yield v
             if n["opt"]:
-                c = copy.deepcopy(tree)
-                [m for m in _preorder(c) if m["id"] == n["id"]][0]["opt"] = False
-                yield {"tree": c}
+                t = copy.deepcopy(tree)
+                [m for m in _preorder(t) if m["id"] == n["id"]][0]["opt"] = False
+                v = variant(t)
+                if v is not None:
+                    yield v
+
+
+def _valid_obj(code):
+    from flatland.schema.base import Unevaluated
+    return {"T": True, "F": False, "U": Unevaluated}[code]
 
 
 PROP = C05()
